@@ -112,6 +112,20 @@ func execTParam(c px.Context, args []sx.Sexp) core.Result {
 			if got, ok := o1.Get("p"); !ok || !got.Equals(want, nil) {
 				add("tparam-get", "Get(p) = %v, want %v", got, want)
 			}
+			// an instance that leaves the parameter out is no instance of the type another instance binds it in — and asking must
+			// not raise (known finding C17-tparam-string-match: a String parameter is used as a REGULAR EXPRESSION on the
+			// attribute's value, which raises when the value is undef or the string is no regular expression)
+			if pv != nil && pv != px.Undef {
+				if o0, _ := newObj(fc, t, a); o0 != nil {
+					got := false
+					if cls0 := safely(func() { got = px.IsInstance(o1.PType(), o0) }); cls0 != "" {
+						add("tparam-instance-raises", "IsInstance(%s, an instance without p) raised %s", o1.PType(), cls0)
+					} else if got && args[0].Atom != "type" {
+						// (a parameter given as a TYPE matches by instance-of: T[Any] accepts the undef of an instance without p)
+						add("tparam-unbound-instance", "an instance without p is an instance of %s", o1.PType())
+					}
+				}
+			}
 			for k, o := range []px.PuppetObject{o1, o2} {
 				if !px.IsInstance(t, o) {
 					add("tparam-base", "object %d of %s is not an instance of the base type", k, o.PType())
@@ -145,7 +159,10 @@ func execTParam(c px.Context, args []sx.Sexp) core.Result {
 	res := core.Result{Out: out, Pred: "ok", NonTrivial: pv != nil, Tags: []string{"tparam"}}
 	if len(fails) > 0 {
 		res.Pred = "FAIL " + fails[0].class + " " + fails[0].detail
-		if pv == px.Undef && fails[0].class != "fault" {
+		if args[0].Atom == "str" && strings.Contains(fails[0].detail, "MATCH_NOT_") {
+			// known finding C17-tparam-string-match
+			res.Pred = "FAIL tparam-string-match [" + fails[0].class + "] " + fails[0].detail
+		} else if pv == px.Undef && fails[0].class != "fault" {
 			// known finding C17-tparam-explicit-undef: the parameter's attribute given its default (undef) BY NAME binds the type
 			// parameter to undef (the instance gets the type T[p => undef]); given positionally it does not
 			res.Pred = "FAIL tparam-explicit-undef [" + fails[0].class + "] " + fails[0].detail
@@ -159,7 +176,7 @@ func genTParam(g *core.G) {
 	g.Emit("@msg ser")
 	vals := map[string][]string{
 		"int":  {"-", "u", "(i 0)", "(i 4)", "(s x78)"},
-		"str":  {"-", "u", "(s x)", "(s x78)", "(i 1)"},
+		"str":  {"-", "u", "(s x)", "(s x78)", "(s x28)", "(i 1)"},
 		"type": {"-", "u", "int", "str", "bool", "any", "(i 1)"},
 	}
 	for _, k := range []string{"int", "str", "type"} {
